@@ -5,7 +5,7 @@ import ast
 
 from sa import dataflow as df
 from sa import loop as lp
-from sa.krylov import closure, is_norm_expr, nospace, norm_written, projection_convention
+from sa.krylov import buffer_dtype_obligations, closure, is_norm_expr, nospace, norm_written, projection_convention
 
 
 def fn(idx, rep, name, module_suffix="lanczos"):
@@ -156,6 +156,8 @@ def run(idx, rep, tier):
                    ("" if ok else "; required N, N-1, N for one size N"), detail="" if ok else "sizes", locs=[idx.loc(lanczos.module, lanczos.node)])
     else:
         rep.undecided("trimming", "lanczos:trim", "trimming assignment not found")
+    buffer_dtype_obligations(idx, rep, init, "buffer-dtype")
+    rep.floor("buffer-dtype", 2)
     rep.floor("loop-cap", 2)
     rep.floor("symmetric-T", 2)
     rep.floor("projection", 1)
